@@ -78,12 +78,13 @@ fn digits(rng: &mut Rng, max: u64) -> Option<String> {
     }
 }
 
-pub fn gen_items(rng: &mut Rng, syms: &[String], depth: u32, max_items: u64) -> Vec<Item> {
+pub fn gen_items(rng: &mut Rng, syms: &[String], depth: u32, max_items: u64) -> Vec<Item> { gen_items_w(rng, syms, depth, max_items, false) }
+pub fn gen_items_w(rng: &mut Rng, syms: &[String], depth: u32, max_items: u64, wild: bool) -> Vec<Item> {
     let n = 1 + rng.below(max_items);
     let mut v = Vec::new();
     for _ in 0..n {
         if depth > 0 && rng.chance(1, 4) {
-            let body = gen_items(rng, syms, depth - 1, 3);
+            let body = gen_items_w(rng, syms, depth - 1, 3, wild);
             v.push(Item::Gr(body, digits(rng, 20)));
         } else {
             // favour a small set so that keys repeat, but reach the whole table
@@ -92,7 +93,7 @@ pub fn gen_items(rng: &mut Rng, syms: &[String], depth: u32, max_items: u64) -> 
             let iso = if rng.chance(1, 3) {
                 let mut ks: Vec<u16> = e.isotopes.keys().copied().collect();
                 ks.sort();
-                let k = *rng.pick(&ks);
+                let k = if wild && rng.chance(1, 3) { let lo = ks[0].saturating_sub(2) as u64; let hi = *ks.last().unwrap() as u64 + 2; (lo + rng.below(hi - lo + 1)) as u16 } else { *rng.pick(&ks) };
                 Some(if rng.chance(1, 6) { format!("0{}", k) } else { format!("{}", k) })
             } else { None };
             v.push(Item::El(sym, iso, digits(rng, 5000)));
@@ -157,10 +158,10 @@ pub fn run(args: &[String]) {
                     let extra = ['²', '𝟚', 'N', 'a', '+', '1', '3', '9'];
                     (0..len).map(|_| if rng.chance(4, 5) { *rng.pick(&ALPHABET) } else { *rng.pick(&extra) }).collect()
                 } else {
-                    let items = gen_items(&mut rng, &syms, 3, 5);
+                    let items = gen_items_w(&mut rng, &syms, 3, 5, true);
                     let mut s = String::new();
                     render(&items, &mut s);
-                    mutate(&mut rng, &s)
+                    if rng.chance(1, 3) { s } else { mutate(&mut rng, &s) }
                 };
                 emit(id, &s, &ce, None);
             }
